@@ -30,7 +30,11 @@ func getSwapInReceiverStates() States {
 			Events: Events{
 				Event_SwapInReceiver_OnRequestReceived: State_SwapInReceiver_CreateSwap,
 				Event_OnInvalid_Message:                State_SendCancel,
+				Event_ActionFailed:                     State_SwapCanceled,
 			},
+			// A swap found in its initial state after a restart was
+			// stored but never started: nothing has been sent yet.
+			FailOnrecover: true,
 		},
 		State_SwapInReceiver_CreateSwap: {
 			Action: &CheckRequestWrapperAction{next: &SwapInReceiverInitAction{}},
